@@ -312,11 +312,21 @@ def do_run(a):
                     if len(ev["collateral"]) < 20: ev["collateral"].append({"seed": out["seed"], "class": v.get("class"), "msg": str(v.get("msg"))[:200]})
                     continue
                 new_viols.append({"v": v, "plan": out["plan"], "seed": out["seed"], "trace": out.get("trace"), "stderr": out.get("stderr", "")})
-            if time.time() > deadline or len(new_viols) >= 8 or len(sim_fail) >= 3:
+            if time.time() > deadline or (len(new_viols) >= 8 and not a.survey) or len(sim_fail) >= 3:
                 pool.terminate(); break
     wall = time.time() - t_start
     rc = 0
     reported = []
+    if a.survey:
+        import collections
+        cnt = collections.Counter(); ex = {}
+        for nv in new_viols:
+            v = nv["v"]; key = tuple((kk, str(v.get(kk))) for kk in a.survey.split(","))
+            cnt[key] += 1; ex.setdefault(key, (nv["seed"], str(v.get("msg"))[:300]))
+        for key, n in cnt.most_common():
+            print(n, dict(key), "seed=%d" % ex[key][0]); print("     ", ex[key][1])
+        print("%d runs, %d violations, %d kinds" % (ev["runs"], len(new_viols), len(cnt)))
+        return 0
     if sim_fail:
         out, v = sim_fail[0]
         print("SIMULATOR-FAILURE: %s seed=%d: %s" % (v.get("class"), out["seed"], str(v.get("msg"))[:2000]))
@@ -415,12 +425,52 @@ def do_replay(a):
         for e in r.hist: print(json.dumps(e)[:600])
     return 0
 
+def do_mkknown(a):
+    """development aid: reproduce seed -> minimise -> write known/<id>.json (the file is committed; never written by a check run)"""
+    prop = a.prop.upper(); mod = load_prop(prop)
+    build(getattr(mod, "VARIANT", "asan"))
+    z = simdrv.Zygote(getattr(mod, "VARIANT", "asan"))
+    plan = None
+    for i in range(a.maxindex):
+        if run_seed(int(os.environ.get("VERIF_SEED", "1")), prop, i) == a.seed:
+            plan = mod.gen(a.seed, "quick", i); break
+    if plan is None:
+        print("seed not found among the first %d indices" % a.maxindex); return 2
+    want = dict(kv.split("=", 1) for kv in a.match)
+    r = z.run(plan); viols, _ = eval_run(mod, plan, r)
+    cand = [v for v in viols if all(str(v.get(k)) == val for k, val in want.items())]
+    if not cand:
+        print("no matching violation; seen:", [(v.get("class"), v.get("call"), v.get("manifestation")) for v in viols]); return 2
+    v = cand[0]
+    # minimise while the SAME fields keep matching
+    def same(vv): return vv is not None and all(str(vv.get(k)) == val for k, val in want.items())
+    best = plan
+    import copy as _c
+    class M:
+        pass
+    orig_reproduce = reproduce
+    def rep(zz, mm, pl, cls):
+        rr = zz.run(pl); vs, _ = eval_run(mm, pl, rr)
+        for x in vs:
+            if vclass(x) == cls and same(x): return x, rr
+        return None, rr
+    globals()["reproduce"] = rep
+    mplan, mv = minimise(z, mod, plan, v, budget=200)
+    globals()["reproduce"] = orig_reproduce
+    os.makedirs(os.path.join(VERIF, "known"), exist_ok=True)
+    out = os.path.join(VERIF, "known", a.id + ".json")
+    json.dump({"property": prop, "violation": mv, "plan": mplan, "variant": getattr(mod, "VARIANT", "asan")}, open(out, "w"), indent=1)
+    print("wrote", out, "ops:", sum(len(t["ops"]) for t in mplan["tasks"]), "violation:", {k: mv.get(k) for k in mv if k != "msg"}); print(mv.get("msg"))
+    z.close(); return 0
+
 def main():
     ap = argparse.ArgumentParser()
     sub = ap.add_subparsers(dest="cmd")
-    r = sub.add_parser("run"); r.add_argument("prop"); r.add_argument("--tier"); r.add_argument("--runs", type=int); r.add_argument("--budget", type=float); r.add_argument("--workers", type=int)
+    r = sub.add_parser("run"); r.add_argument("prop"); r.add_argument("--tier"); r.add_argument("--runs", type=int); r.add_argument("--budget", type=float); r.add_argument("--workers", type=int); r.add_argument("--survey", help="comma-separated violation fields: count all violations by these fields, no gating (development aid)")
     p = sub.add_parser("replay"); p.add_argument("file"); p.add_argument("--nobuild", action="store_true"); p.add_argument("--verbose", "-v", action="store_true")
+    k = sub.add_parser("mkknown"); k.add_argument("prop"); k.add_argument("seed", type=int); k.add_argument("id"); k.add_argument("match", nargs="*"); k.add_argument("--maxindex", type=int, default=20000)
     a = ap.parse_args()
+    if a.cmd == "mkknown": sys.exit(do_mkknown(a))
     if a.cmd == "run": sys.exit(do_run(a))
     if a.cmd == "replay": sys.exit(do_replay(a))
     ap.print_help(); sys.exit(2)
